@@ -666,7 +666,7 @@ def poly_of(e, atomizer, depth=0):
 
 # ---------------------------------------------------------------- decision tables of loop-free bodies
 
-def decision_paths(fn, limit=400, with_calls=False):
+def decision_paths(fn, limit=400, with_calls=False, with_env=False):
     """Enumerate the acyclic entry→return paths of a loop-free body, evaluating assignments
     flow-sensitively into expression trees (parameters stay symbolic, calls stay opaque).
     Returns [(conditions, result)] with conditions = [(discr_expr, chosen_value or None for `otherwise`,
@@ -675,13 +675,17 @@ def decision_paths(fn, limit=400, with_calls=False):
 
     def ev_place(p, env):
         l = p["l"]
-        if l in env:
+        projs = p["p"]
+        if projs and projs[0] == "deref" and ("mem", l) in env:
+            e = env[("mem", l)]          # the pointee was (partly) overwritten on this path
+            projs = projs[1:]
+        elif l in env:
             e = env[l]
         elif 1 <= l <= fn.arg_count:
             e = ("arg", l, fn.names.get(l))
         else:
             raise Inconclusive("%s: read of a local without a definition on this path (_%d)" % (fn.path, l))
-        for el in p["p"]:
+        for el in projs:
             if el == "deref":
                 e = e[1] if e[0] == "ref" else ("deref", e)
             elif isinstance(el, dict) and "f" in el:
@@ -769,6 +773,23 @@ def decision_paths(fn, limit=400, with_calls=False):
                     d = dict(base[2])
                     d[el["name"]] = v
                     env[lhs["l"]] = ("agg", base[1], d)
+                elif base is None and 1 <= lhs["l"] <= fn.arg_count and isinstance(el, dict) and "f" in el and len(lhs["p"]) == 1:
+                    # field update of a by-value parameter
+                    env[lhs["l"]] = ("upd", ("arg", lhs["l"], fn.names.get(lhs["l"])), {el["name"]: v})
+                elif lhs["p"][0] == "deref" and 1 <= lhs["l"] <= fn.arg_count and lhs["l"] not in env and len(lhs["p"]) <= 2 \
+                        and (len(lhs["p"]) == 1 or (isinstance(el, dict) and "f" in el)):
+                    # store through a reference parameter: `*self = v` or `self.f = v`
+                    cur = env.get(("mem", lhs["l"]), ("deref", ("arg", lhs["l"], fn.names.get(lhs["l"]))))
+                    if len(lhs["p"]) == 1:
+                        env[("mem", lhs["l"])] = v
+                    elif cur[0] == "agg":
+                        d = dict(cur[2])
+                        d[el["name"]] = v
+                        env[("mem", lhs["l"])] = ("agg", cur[1], d)
+                    else:
+                        d = dict(cur[2]) if cur[0] == "upd" else {}
+                        d[el["name"]] = v
+                        env[("mem", lhs["l"])] = ("upd", cur[1] if cur[0] == "upd" else cur, d)
                 elif base is not None and base[0] in ("call", "upd") and isinstance(el, dict) and "f" in el and len(lhs["p"]) == 1:
                     # field update of a by-value struct that came out of a call: remember the overridden fields
                     d = dict(base[2]) if base[0] == "upd" else {}
@@ -779,7 +800,9 @@ def decision_paths(fn, limit=400, with_calls=False):
         t = blk["term"]
         k = t["k"]
         if k == "return":
-            if with_calls:
+            if with_env:
+                out.append((conds, env.get(0), dict(env)))
+            elif with_calls:
                 out.append((conds, env.get(0), list(env.get("#calls", ()))))
             else:
                 out.append((conds, env.get(0)))
